@@ -85,7 +85,14 @@ func replayProgram(kind string, c map[string]interface{}) error {
 	src := c["source"].(string)
 	o := drive.FromBits(num(c["optbits"]))
 	o.Events, o.Undef, o.Directive = num(c["events"]), num(c["undef"]), num(c["directive"])
-	t, err := sx.Parse(stripDirectives(src))
+	if b, _ := c["infix"].(bool); b {
+		o.Infix = true // a one-node program written in infix notation
+	}
+	readable := stripDirectives(src)
+	if o.Infix {
+		readable = strings.Trim(readable, "()")
+	}
+	t, err := sx.Parse(readable)
 	if err != nil {
 		return fmt.Errorf("cannot read the recorded source back: %v", err)
 	}
@@ -245,7 +252,7 @@ func replaySchedule(c map[string]interface{}) error {
 		if err != nil {
 			return err
 		}
-		iso[ci] = C7Do(e, p, cc, nil)
+		iso[ci] = C7DoIso(e, p, cc)
 	}
 	for rep := 0; rep < 2; rep++ { // twice: the same schedule must give the same observations
 		e, _ := C7Compile(p)
